@@ -2,7 +2,7 @@
 # Offline setup: nothing to download or compile; check that the specification parses and the harness imports.
 set -e
 cd "$(dirname "$0")"
-for m in SQDecimal SQValues SQBuiltins SQVM SQGen MCVM TraceVM SQLexer SQGrammar TraceParse MC_Parse MC_Lex MC_C01 MC_C02 MC_C03 MC_C04 MC_C07 MC_C09 MC_C10 MC_C12 MC_C13 MC_C14 MC_C16 MC_C19 SQSession TraceSession SQRegexTimer MC_Decimal TraceDecimal; do
+for m in SQDecimal SQValues SQBuiltins SQVM SQGen MCVM TraceVM SQLexer SQGrammar TraceParse MC_Parse MC_Lex MC_C01 MC_C02 MC_C03 MC_C04 MC_C07 MC_C09 MC_C10 MC_C12 MC_C13 MC_C14 MC_C16 MC_C19 SQSession TraceSession SQRegexTimer MC_Decimal TraceDecimal SQRepl MC_Repl TraceRepl SQLexerSM SQGrammarValid MC_LexSM MC_ParseValid; do
   ( cd spec && java -cp /opt/veriftools/tla/tla2tools.jar:/opt/veriftools/tla/CommunityModules-deps.jar tla2sany.SANY $m.tla >/tmp/sany_$m.log 2>&1 ) || { cat /tmp/sany_$m.log; exit 1; }
   if grep -q "Parse Error\|Semantic errors\|Fatal errors\|\*\*\* Errors" /tmp/sany_$m.log; then cat /tmp/sany_$m.log; exit 1; fi
   rm -f /tmp/sany_$m.log
